@@ -526,4 +526,29 @@ example :
     (decCodeflagU (.oper 0) 1 { bits := [true], vals := [[]] }).toOption.map (·.vals) = some [[.int 1]] := by
   decide
 
+
+/-! ### 6. compressed columns: entries equal to the all-ones pattern (finding F18, repaired) -/
+
+/-- The documented exception in compressed data.  When every present entry of a (not all-equal) column
+    coincides with the all-ones pattern of a field wider than one bit — e.g. such a value next to a
+    missing entry — the repaired encoder (`_all_ones_as_missing`) writes the all-missing column:
+    minimum all ones and increment width 0, which every subset reads back as missing.  (Before the repair the
+    minimum was written as all ones WITH a non-zero width, which the decoder rejects.) -/
+theorem C03_compressed_all_ones_column (w : Nat) (h1 : 1 < w) (h64 : w ≤ 64) (raws : List (Option Int))
+    (h : ∀ r ∈ raws, r = none ∨ r = some (((2 ^ w - 1 : Nat) : Int))) :
+    encIntColumnN false raws w = .ok (ones w ++ toBits 6 0) := by
+  have hall : (allOnesAsMissing w raws).all (· == none) = true := by
+    unfold allOnesAsMissing
+    have : ¬ w ≤ 1 := by omega
+    simp only [this, if_false, List.all_map, List.all_eq_true]
+    intro r hr
+    rcases h r hr with rfl | rfl <;> simp
+  have hp : 2 ^ w - 1 < 2 ^ w := by have := Nat.two_pow_pos w; omega
+  have h6 : fieldUInt 0 6 = .ok (toBits 6 0) := fieldUInt_ofNat 6 0 (by decide) (by decide)
+  simp only [encIntColumnN, Bool.false_eq_true, if_false, hall, if_true, catBits, missingPattern_ok w h64,
+    bind, Except.bind, fieldUInt_ofNat w _ (by omega) hp, toBits_max, h6, List.append_nil]
+
+example : encIntColumnN false [some 511, none] 9 = .ok (ones 9 ++ toBits 6 0) :=
+  C03_compressed_all_ones_column 9 (by decide) (by decide) _ (by intro r hr; simp at hr; rcases hr with rfl | rfl <;> simp)
+
 end Bufr
